@@ -38,13 +38,60 @@ const (
 	c16TrkLife      = 90
 )
 
+// Life is JWTSessionCodec.MaxAge (the session lifetime), CookieSecs CookieSessionProvider.MaxAge and
+// CookieAge its class relative to the lifetime: equal | longer | shorter | zero ("" = equal: a
+// configuration written down by hand in the history tests).
 type c16Cfg struct {
-	Spkey  string `json:"spkey"`
-	Life   int64  `json:"life"`
-	Cookie string `json:"cookie"`
+	Spkey      string `json:"spkey"`
+	Life       int64  `json:"life"`
+	Cookie     string `json:"cookie"`
+	CookieAge  string `json:"cookieAge,omitempty"`
+	CookieSecs int64  `json:"cookieSecs"`
 }
 
-func (c c16Cfg) String() string { return fmt.Sprintf("%s/%d/%s", c.Spkey, c.Life, c.Cookie) }
+func (c c16Cfg) separated() bool { return c.CookieAge != "" && c.CookieAge != "equal" }
+
+// cookieMaxAge is the cookie provider's MaxAge in seconds.
+func (c c16Cfg) cookieMaxAge() int64 {
+	if c.separated() {
+		return c.CookieSecs
+	}
+	return c.Life
+}
+
+func (c c16Cfg) String() string {
+	if c.separated() {
+		return fmt.Sprintf("%s/%d/%s/cookie=%s", c.Spkey, c.Life, c.Cookie, c.CookieAge)
+	}
+	return fmt.Sprintf("%s/%d/%s", c.Spkey, c.Life, c.Cookie)
+}
+
+// c16CfgSane: the class and the number of seconds the model states for the cookie agree.
+func c16CfgSane(c c16Cfg) error {
+	ok := false
+	switch c.CookieAge {
+	case "", "equal":
+		ok = c.CookieAge == "" || c.CookieSecs == c.Life
+	case "longer":
+		ok = c.CookieSecs > c.Life && c.CookieSecs > 0
+	case "shorter":
+		ok = c.CookieSecs < c.Life && c.CookieSecs > 0
+	case "zero":
+		ok = c.CookieSecs == 0 && c.Life != 0
+	}
+	if !ok {
+		return fmt.Errorf("configuration %s: cookie age class %q with cookieSecs=%d, life=%d", c, c.CookieAge, c.CookieSecs, c.Life)
+	}
+	return nil
+}
+
+// c16CkText renders a Max-Age attribute value of the model (c16Absent = no attribute).
+func c16CkText(v int64) string {
+	if v == c16Absent {
+		return ""
+	}
+	return fmt.Sprint(v)
+}
 
 type c16Tok struct {
 	Src      string `json:"src"`
@@ -106,6 +153,8 @@ type c16MapVec struct {
 	Pred  struct {
 		Subj           string              `json:"subj"`
 		Claims         map[string][]string `json:"claims"`
+		Exp            int64               `json:"exp"`      // token end, seconds after the mint
+		CkMaxAge       int64               `json:"ckMaxAge"` // Max-Age attribute of the Set-Cookie (c16Absent = none)
 		Gates          []c16Gate           `json:"gates"`
 		NoSessionAdmit bool                `json:"noSessionAdmit"`
 	} `json:"pred"`
@@ -134,10 +183,11 @@ type c16LifeVec struct {
 		Scd  int64   `json:"scd"`
 	} `json:"at"`
 	Pred struct {
-		Out    string              `json:"out"`
-		Exp    int64               `json:"exp"`
-		Subj   string              `json:"subj"`
-		Claims map[string][]string `json:"claims"`
+		Out      string              `json:"out"`
+		Exp      int64               `json:"exp"`
+		CkMaxAge int64               `json:"ckMaxAge"` // Max-Age attribute of the Set-Cookie (c16Absent = none)
+		Subj     string              `json:"subj"`
+		Claims   map[string][]string `json:"claims"`
 	} `json:"pred"`
 }
 
@@ -214,10 +264,14 @@ func c16LifeText(v *c16LifeVec) string {
 	if v.In.Scd != "none" {
 		p = append(p, fmt.Sprintf("SubjectConfirmationData NotOnOrAfter = issue %+d s", v.At.Scd))
 	}
-	if len(p) == 0 {
-		return "the assertion states no end"
+	txt := "the assertion states no end"
+	if len(p) > 0 {
+		txt = strings.Join(p, ", ")
 	}
-	return strings.Join(p, ", ")
+	if v.Cfg.separated() {
+		txt += fmt.Sprintf("; session codec MaxAge %d s, cookie provider MaxAge %d s (%s)", v.Cfg.Life, v.Cfg.CookieSecs, v.Cfg.CookieAge)
+	}
+	return txt
 }
 
 // ---------------------------------------------------------------------------
@@ -356,6 +410,37 @@ func c16NewDepl(cfg c16Cfg, which, root string) (*c16Depl, error) {
 		sess.MaxAge = codec.MaxAge
 		m.Session = sess
 	}
+	if cfg.separated() {
+		// the two durations separated: the session provider is built by hand, the way a deployment does that
+		// wants a persistent (or a browser-session) cookie around a token with its own lifetime
+		method := jwt.SigningMethod(jwt.SigningMethodRS256)
+		if cfg.Spkey == "ECDSA" {
+			method = jwt.SigningMethodES256
+		}
+		m.Session = samlsp.CookieSessionProvider{
+			Name:     name,
+			Domain:   opts.URL.Host,
+			HTTPOnly: true,
+			Secure:   opts.URL.Scheme == "https",
+			SameSite: opts.CookieSameSite,
+			MaxAge:   time.Duration(cfg.CookieSecs) * time.Second,
+			Codec: samlsp.JWTSessionCodec{
+				SigningMethod: method,
+				Audience:      opts.URL.String(),
+				Issuer:        opts.URL.String(),
+				MaxAge:        time.Duration(cfg.Life) * time.Second,
+				Key:           kp.Key,
+			},
+		}
+	}
+	// the deployment has the two durations of its configuration (fields only: no code under test runs)
+	if sess, ok := m.Session.(samlsp.CookieSessionProvider); !ok {
+		return nil, fmt.Errorf("session provider is %T", m.Session)
+	} else if codec, ok := sess.Codec.(samlsp.JWTSessionCodec); !ok {
+		return nil, fmt.Errorf("session codec is %T", sess.Codec)
+	} else if codec.MaxAge != time.Duration(cfg.Life)*time.Second || sess.MaxAge != time.Duration(cfg.cookieMaxAge())*time.Second {
+		return nil, fmt.Errorf("deployment %s built with codec MaxAge %v and cookie MaxAge %v", cfg, codec.MaxAge, sess.MaxAge)
+	}
 	m.OnError = func(w http.ResponseWriter, _ *http.Request, _ error) {
 		w.Header().Set(c16OnErrorHeader, "1")
 		http.Error(w, http.StatusText(http.StatusForbidden), http.StatusForbidden)
@@ -485,17 +570,37 @@ func c16SameAttrs(a, b map[string][]string) bool {
 // minting with the real code
 
 func c16Mint(d *c16Depl, a *saml.Assertion) (string, error) {
+	tok, _, err := c16MintCookie(d, a)
+	return tok, err
+}
+
+// c16MintCookie mints through the deployment's session provider (the ACS path) and also returns the
+// Max-Age attribute of the Set-Cookie line as written ("" = no such attribute; several are joined by "|").
+func c16MintCookie(d *c16Depl, a *saml.Assertion) (token, maxAge string, err error) {
 	rec := httptest.NewRecorder()
 	req := httptest.NewRequest("POST", d.root+"/saml/acs", nil)
 	if err := d.m.Session.CreateSession(rec, req, a); err != nil {
-		return "", err
+		return "", "", err
 	}
 	for _, c := range rec.Result().Cookies() {
-		if c.Name == d.cookie {
-			return c.Value, nil
+		if c.Name != d.cookie {
+			continue
 		}
+		var ages []string
+		for _, line := range rec.Header().Values("Set-Cookie") {
+			if !strings.HasPrefix(line, d.cookie+"=") {
+				continue
+			}
+			for _, attr := range strings.Split(line, ";")[1:] {
+				attr = strings.TrimSpace(attr)
+				if len(attr) >= 8 && strings.EqualFold(attr[:8], "max-age=") {
+					ages = append(ages, attr[8:])
+				}
+			}
+		}
+		return c.Value, strings.Join(ages, "|"), nil
 	}
-	return "", fmt.Errorf("CreateSession set no cookie named %q (Set-Cookie: %q)", d.cookie, rec.Header().Values("Set-Cookie"))
+	return "", "", fmt.Errorf("CreateSession set no cookie named %q (Set-Cookie: %q)", d.cookie, rec.Header().Values("Set-Cookie"))
 }
 
 func c16MintTracking(d *c16Depl, rng *rand.Rand) (token, index string, err error) {
@@ -981,6 +1086,7 @@ func c16WhyText(why map[string]bool) string {
 		"otherKey": "signed by another key", "otherAlg": "another algorithm than the configured one",
 		"notSession": "not a session token (tracking token / session marker claim false or absent)",
 		"expired":    "expired by a second or more", "notYet": "not yet valid by a second or more",
+		"tooOld":   "issued by this SP's CreateSession longer ago than the configured session lifetime (the session codec's MaxAge)",
 		"otherAud": "audience different or absent", "otherIss": "issuer different or absent",
 		"altered": "truncated or altered token string",
 	}
